@@ -751,6 +751,12 @@ fn to_array(mac: &[u8]) -> Option<[u8; 6]> {
     mac[0..6].try_into().ok()
 }
 
+/// The hardware address the reply path frames a reply to (what recvdhcp does with reply.chaddr).
+#[cfg(erbium_verif)]
+pub fn verif_reply_hwaddr(mac: &[u8]) -> Option<[u8; 6]> {
+    to_array(mac)
+}
+
 enum RunError {
     ListenError(std::io::Error),
     RecvError(std::io::Error),
